@@ -101,6 +101,20 @@ def r6_1(run):
                     for a in p.symbols():
                         if len(a) == 6 and a[1] == "col" and a[3] != "i" and not a[2].endswith(".array"):
                             rowkeys.add((a[2], a[3], a[5], "read"))
+            # the end-node columns of the branch pit hold node-pit positions: what is stored there is later used as a row
+            # index of the node pit by every kernel, so it must be label-free outside an index lookup as well
+            for key, v in ki.pit.items():
+                if key[3] in ("FROM_NODE", "TO_NODE") and key[0] != "node_pit":
+                    acc = []
+                    for gd, p in tonum(v).cases:
+                        _labels_outside_lookup(p, acc)
+                    from ..algebra import fmt_atom as _fa
+                    n_pos = getattr(run, "_n_pos", 0) + 1
+                    run._n_pos = n_pos
+                    run.ob("%s.%s|%s-holds-positions" % (c.name, h, key[3]), not acc,
+                           "the value stored in column %s is a node-pit position (index lookup of the reference column, or an "
+                           "internal node position), never a user label" % key[3], run.where(f, f.node),
+                           detail="labels stored as positions: %s" % [_fa(a) for a in acc] if acc else None)
             for pit, rk, colname, how in sorted(rowkeys, key=repr):
                 n_rows += 1
                 acc = []
@@ -113,6 +127,9 @@ def r6_1(run):
                        "the row index of this %s of %s[., %s] contains no user label outside an index lookup" % (how, pit, colname),
                        run.where(f, f.node), detail="labels used as positions: %s" % [fmt_atom(a) for a in acc] if acc else None)
     run.stat("row_index_expressions_checked", n_rows)
+    run.stat("end_node_column_stores_checked", getattr(run, "_n_pos", 0))
+    if getattr(run, "_n_pos", 0) < 10:
+        raise AnalysisError("R6.1: only %d stores into FROM_NODE/TO_NODE were summarised (expected at least 10)" % getattr(run, "_n_pos", 0))
     # lookup builders
     for q in ("pandapipes.component_models.junction_component.Junction.create_node_lookups",
               "pandapipes.component_models.abstract_models.branch_w_internals_models.BranchWInternalsComponent.create_branch_lookups"):
@@ -208,8 +225,11 @@ class OrderKinds:
                 for a in e.args:
                     self.kind(a)
                 return SORTED
-            if f == "argsort" and "index" in U(e.args[0]):
-                return SORT2TABLE
+            if f == "argsort":
+                arg = e.args[0] if e.args else (e.func.value if isinstance(e.func, ast.Attribute) else None)
+                if arg is not None and any(isinstance(n, ast.Attribute) and n.attr == "index" for n in ast.walk(arg)):
+                    return SORT2TABLE
+                return TOP
             if f in ("cumsum", "astype", "abs", "copy", "ones_like", "zeros_like", "round"):
                 inner = e.func.value if isinstance(e.func, ast.Attribute) and not isinstance(e.func.value, ast.Name) else (e.args[0] if e.args else None)
                 if isinstance(e.func, ast.Attribute) and isinstance(e.func.value, ast.Name) and e.func.value.id not in ("np", "numpy"):
@@ -513,7 +533,7 @@ def r6_5(run):
                     if x[0] == "idx" and x[1][0] == "proj" and _is_pair_call(x[1][1]):
                         W = x[1][1]
                         for sel in x[2]:
-                            if any(y[0] == "proj" and tkey(y[1]) == tkey(W) for y in walk(sel)):
+                            if any(y[0] == "proj" and tkey(y[1]) == tkey(W) and y[2] != x[1][2] for y in walk(sel)):
                                 k = "%s|where-output-indexed-by-where-output|%s" % (f.short, tshow(x)[:60])
                                 if k not in seen:
                                     seen.add(k)
